@@ -12,7 +12,7 @@ Reference model (independent, written here): RefRouter
   * find(): plain depth-first walk of the template tree -- literal children first, then
     multi-field children, then the single-field child, siblings of a class in insertion
     order, backtracking on failure; a multi-field segment is matched by a hand-written
-    greedy backtracking matcher (not `re`); converters re-implemented (int, uuid, path).
+    greedy backtracking matcher (not `re`); converters re-implemented (int, uuid, path, float, dt).
 Compared after EVERY add: accept/reject; and for every representative path: None vs
 (resource identity, uri_template, exact params dict with typed values).  Any exception
 from find() is a violation.  The tree shapes are compared as well (residue detection).
@@ -112,7 +112,41 @@ class PathConv:
         return '/'.join(segs)
 
 
-CONVS = {'int': IntConv, 'uuid': UuidConv, 'path': PathConv}
+class FloatConv:
+    """float: no surrounding whitespace, Python float syntax; finite=True (default) vetoes nan/inf/-inf; a value below
+    min or above max is vetoed (nan is neither, so with finite=False it passes any bounds)."""
+    def __init__(self, min=None, max=None, finite=True):
+        self.mn, self.mx, self.finite = min, max, True if finite is None else finite
+
+    def convert(self, v):
+        if v != v.strip():
+            return None
+        try:
+            x = float(v)
+        except ValueError:
+            return None
+        if self.finite and (x != x or x in (float('inf'), float('-inf'))):
+            return None
+        if self.mn is not None and x < self.mn:
+            return None
+        if self.mx is not None and x > self.mx:
+            return None
+        return x
+
+
+class DtConv:
+    def __init__(self, format_string='%Y-%m-%dT%H:%M:%S%z'):
+        self.fmt = format_string
+
+    def convert(self, v):
+        import datetime
+        try:
+            return datetime.datetime.strptime(v, self.fmt)
+        except ValueError:
+            return None
+
+
+CONVS = {'int': IntConv, 'uuid': UuidConv, 'path': PathConv, 'float': FloatConv, 'dt': DtConv}
 
 
 def make_conv(name, args):
@@ -331,14 +365,20 @@ def reps_for_segment(seg):
             return ['7', '07', '12', '-7', '+7', ' 7', '1_0', 'x', '0', '-1', '\u00b2']   # SUPERSCRIPT TWO: isdigit(), not int()
         if conv == 'uuid':
             return [UUID_OK, UUID_OK[:-1] + 'g']
+        if conv == 'float':
+            return ['1.5', '7', '-7.5', '1e1', 'inf', '-inf', 'Infinity', 'nan', '1e999', ' 1', '1_0', 'x', '.5', '\u0663']
+        if conv == 'dt':
+            return ['2020-01-02T03:04:05Z', '2020-01-02T03:04:05+0100', '2020-01-02', '2020-13-01', 'x']
         if conv == 'path':
             return ['zz', '']
         return ['zz', '']
     # multi-field: natural instance, empty field, repeated/extra separator
     lits = [p[1] for p in pieces if p[0] == 'lit']
     sep = lits[0] if lits else '-'
-    inst = ''.join(p[1] if p[0] == 'lit' else ('7' if p[2] == 'int' else 'k') for p in pieces)
+    inst = ''.join(p[1] if p[0] == 'lit' else ('7' if p[2] in ('int', 'float') else 'k') for p in pieces)
     out = [inst, inst.replace('k', '', 1), inst + sep + 'k', sep + inst, inst.replace('7', 'x')]
+    if any(p[0] == 'fld' and p[2] == 'float' for p in pieces):
+        out += [inst.replace('7', 'inf'), inst.replace('7', '-inf'), inst.replace('7', 'nan'), inst.replace('7', '-7.5')]
     return out
 
 
@@ -452,8 +492,7 @@ def lookups(router, model, hist, mode, rep, maxdepth):
             g = (got[0], got[3], got[2])
         if exp is None and g is None:
             continue
-        if exp is None or g is None or exp[0] is not g[0] or exp[1] != g[1] or exp[2] != g[2] \
-                or any(type(exp[2][k]) is not type(g[2][k]) for k in exp[2]):
+        if exp is None or g is None or exp[0] is not g[0] or exp[1] != g[1] or not same_params(exp[2], g[2]):
             kind = 'wrong-route' if (exp is None or g is None or exp[0] is not g[0]) else 'wrong-params'
             rep.violation({'kind': kind, 'model': 'none' if exp is None else 'match', 'router': 'none' if g is None else 'match'},
                           {'hist': list(hist), 'mode': mode, 'path': path, 'maxdepth': maxdepth},
@@ -462,6 +501,29 @@ def lookups(router, model, hist, mode, rep, maxdepth):
         if exp is not None and exp[2]:
             rep.nt(digest((hist, path)))
     return True
+
+
+def same_params(a, b):
+    if set(a) != set(b):
+        return False
+    for k in a:
+        x, y = a[k], b[k]
+        if type(x) is not type(y):
+            return False
+        if isinstance(x, float):
+            if repr(x) != repr(y):        # nan == nan here; -0.0 != 0.0
+                return False
+        elif x != y:
+            return False
+    return True
+
+
+# float / dt converters: every option combination, alone and next to the nodes a veto must fall back to
+CONV_KINDS = ['{p:float}', '{p:float(min=0)}', '{p:float(max=2.5)}', '{p:float(min=1, max=2)}', '{p:float(finite=False)}',
+              '{p:float(min=-5, finite=False)}', '{p:float(max=5, finite=False)}', '{p:float(min=1, max=2, finite=False)}',
+              '{p:float(finite=None)}', '{p:dt}', '{p:dt("%Y-%m-%d")}',
+              '{s:float(min=-5, finite=False)}_{t}', '{s:float}_{t}', '{s:float(max=5, finite=False)}_{u:int}']
+CONV_NEXT = ['{q}', '{q}/{w}', 'a', '{q:int}', '{s}_{t}', '{r:path}']
 
 
 def templates(kinds, depth):
@@ -485,6 +547,15 @@ def gen_histories(tier, seed):
     for a in core:
         for b in core:
             jobs.append((('@triple', a, b), 2))   # (a, b, c) for every c in core
+    for a in CONV_KINDS:
+        jobs.append(((a,), 2))
+        jobs.append((('a/' + a, 'a/{q}'), 2))
+        jobs.append(((a + '/x',), 2))
+        for b in CONV_NEXT:
+            # '{s}_{t}' has the shape of the multi-field converter segments: rejected there (also exercised)
+            jobs.append(((a, b), 2))
+            jobs.append(((b, a), 2))
+            jobs.append(((a + '/x', b), 2))
     for a in EXTRA3:
         jobs.append(((a,), 3))
         for b in EXTRA3 + ['a/{p:int}', '{p}/{q}/{s}']:
@@ -545,7 +616,7 @@ def check(rep):
     rep.rule = ('every history in the bound is executed on a fresh router and the reference router in lockstep; state = one '
                 '(history, mode); transition = one add_route; every lookup compared; non-trivial = distinct (history, path) '
                 'lookups that matched a route and bound at least one field')
-    rep.assumptions = ['segment alphabet is ASCII without newline', 'only the built-in converters int, uuid, path are generated']
+    rep.assumptions = ['segment alphabet is ASCII without newline', 'built-in converters int, uuid, path, float, dt are generated; custom converters are not']
     if rep.seed % 2:
         jobs = jobs[::-1]
     par.run_shards(run_job, jobs, rep)
